@@ -1,18 +1,19 @@
 package props
 
 import (
-	"github.com/fullstorydev/grpchan"
-	"mime"
 	"bytes"
 	"encoding/base64"
 	"fmt"
+	"github.com/fullstorydev/grpchan"
 	"io"
 	"math/rand"
+	"mime"
 	"net/http"
 	"net/http/httptest"
 	"strconv"
 	"strings"
 	"sync"
+	"time"
 
 	tpb "github.com/fullstorydev/grpchan/grpchantesting"
 	"github.com/fullstorydev/grpchan/httpgrpc"
@@ -451,6 +452,38 @@ func checkC11(e *core.Env) {
 		}
 		if (rep[0] == nil) != (rep[1] == nil) || (rep[0] != nil && !proto.Equal(rep[0], rep[1])) {
 			e.Violate("server/unary/json-equivalence/reply", "replies differ between the JSON and protobuf encodings", w)
+		}
+	})
+
+	// over a real connection: header metadata that the handler sets under names HTTP itself gives a meaning to
+	// (relayed from somewhere, or echoed from the request) does not deform the reply
+	rc := NewHTTPServer(&Service{}, carrierOpt{})
+	defer rc.Close()
+	e.Cases("reserved-metadata", e.N(24, 200), func(i int, r *rand.Rand) {
+		name := pick(r, "content-length", "Content-Length", "transfer-encoding", "connection", "content-type", "trailer")
+		val := pick(r, "5", "0", "chunked", "close", "text/plain", "999999")
+		nmsg := 1 + r.Intn(3)
+		sc := &Script{Kind: ServerStream, Handler: []Op{{Op: "recv"}, {Op: "sethdr", MD: metadata.MD{strings.ToLower(name): {val}}}}}
+		for k := 0; k < nmsg; k++ {
+			sc.Handler = append(sc.Handler, Op{Op: "send", Msg: &tpb.Message{Payload: []byte(fmt.Sprintf("reserved-%d-%d", i, k))}})
+		}
+		run := rc.Svc.NewRun(sc, rc.Name)
+		defer rc.Svc.Forget(run)
+		hr, _ := http.NewRequest("POST", rc.URL.String()+ServerStream.Method()[1:], bytes.NewReader(streamBody(&tpb.Message{})))
+		hr.Header.Set("Content-Type", httpgrpc.StreamRpcContentType_V1)
+		hr.Header.Set("X-Verif-Run", run.ID)
+		resp, err := (&http.Client{Transport: rc.Transport, Timeout: 20 * time.Second}).Do(hr)
+		e.Eval("reserved-metadata|"+strings.ToLower(name)+"|"+val, true)
+		w := map[string]any{"handler_header_metadata": name + ": " + val, "messages": nmsg}
+		if err != nil {
+			e.Violate("server/stream/reserved-metadata/no-reply", fmt.Sprintf("handler set header metadata %q=%q: the request failed: %v", name, val, err), w)
+			return
+		}
+		body, rerr := io.ReadAll(resp.Body)
+		resp.Body.Close()
+		data, ntr, tr, rest := parseReply(body)
+		if rerr != nil || ntr != 1 || rest != 0 || tr == nil || len(data) != nmsg {
+			e.Violate("server/stream/reserved-metadata/reply-shape", fmt.Sprintf("handler set header metadata %q=%q and sent %d messages: the reply has %d data frames, %d trailer frames, %d stray bytes (read error: %v)", name, val, nmsg, len(data), ntr, rest, rerr), w)
 		}
 	})
 
